@@ -103,7 +103,7 @@ def check_public(ctx, pubobj, names, where):
     return tree
 
 
-def refuse_all(ctx, pgpy, pubobj, where):
+def refuse_all(ctx, pgpy, pubobj, where, names=()):
     from pgpy.errors import PGPError
     from pgpy.constants import CompressionAlgorithm
     other = sigwork.target_key()
@@ -112,7 +112,9 @@ def refuse_all(ctx, pgpy, pubobj, where):
     ops = [('sign', lambda: pubobj.sign('doc')), ('sign-none', lambda: pubobj.sign(None)),
            ('certify', lambda: pubobj.certify(other.pubkey.userids[0])), ('certify-key', lambda: pubobj.certify(other.pubkey)),
            ('revoke', lambda: pubobj.revoke(pubobj)), ('revoker', lambda: pubobj.revoker(other.pubkey)), ('decrypt', lambda: pubobj.decrypt(enc)),
-           ('add_uid', lambda: pubobj.add_uid(pgpy.PGPUID.new('x')))]
+           ('add_uid', lambda: pubobj.add_uid(pgpy.PGPUID.new('x'))),
+           ('add_subkey', lambda: pubobj.add_subkey(pool.pgpy_bare('ed25519_3'), usage={pgpy.constants.KeyFlags.Sign})),
+           ('add_subkey-ecdh', lambda: pubobj.add_subkey(pool.pgpy_bare('cv25519_2'), usage={pgpy.constants.KeyFlags.EncryptCommunications}))]
     if pubobj.subkeys:
         sk = list(pubobj.subkeys.values())[0]
         ops += [('bind', lambda: pubobj.bind(sk)), ('subkey-sign', lambda: sk.sign('doc')), ('subkey-decrypt', lambda: sk.decrypt(enc))]
@@ -126,6 +128,11 @@ def refuse_all(ctx, pgpy, pubobj, where):
         except Exception as e:
             ctx.count('private_ops_refused')
             ctx.outcome('refused_with:' + type(e).__name__)
+    # ... and a refused operation leaves nothing behind: the object is still public in every part and exports public packets only
+    ctx.count('public_objects_rechecked_after_refusals')
+    if not pubobj.is_public or any(not sk.is_public for sk in pubobj.subkeys.values()):
+        ctx.fail('public-object-holds-a-private-component-after-refused-operation', {'where': where, 'subkeys_private': [str(x.fingerprint) for x in pubobj.subkeys.values() if not x.is_public]})
+    check_public(ctx, pubobj, list(names) + ['ed25519_3', 'cv25519_2'], dict(where, after='refused operations'))
 
 
 def run_case(ctx, d):
@@ -256,10 +263,10 @@ def run_case(ctx, d):
                         ctx.count('held_twin_matches')
             if i == len(d['ops']):
                 kc2 = copy.copy(k)
-                refuse_all(ctx, pgpy, kc2.pubkey, where)
-                refuse_all(ctx, pgpy, pgpy.PGPKey.from_blob(bytes(kc2.pubkey))[0], dict(where, loaded=True))
+                refuse_all(ctx, pgpy, kc2.pubkey, where, names)
+                refuse_all(ctx, pgpy, pgpy.PGPKey.from_blob(bytes(kc2.pubkey))[0], dict(where, loaded=True), names)
                 if held is not None:
-                    refuse_all(ctx, pgpy, held, dict(where, held=True))
+                    refuse_all(ctx, pgpy, held, dict(where, held=True), names)
         if len(d['ops']) > d['derive_at']:
             ctx.nontrivial(d)
         if len(ctx.samples) < 3:
